@@ -355,6 +355,9 @@ def report(prop, spec, args, seed, results, extra, t0):
                 bounded_rows.append({"check": full, "status": "held-on-everything-explored" if o["status"] == "proved" else o["status"]})
                 if o["status"] == "proved":
                     continue
+                if o.get("known") and o["known"] in known_ids:
+                    known_lines.append(o["known"])
+                    continue
                 n_ob += 1
             else:
                 n_ob += 1
